@@ -1375,35 +1375,35 @@ class UTPM(Ring, RawAlgorithmsMixIn):
     def __neg__(self):
         return self.__class__.neg(self)
 
-    def __lt__(self, other):
-        if isinstance(other,self.__class__):
-            return numpy.all(self.data[0,...] < other.data[0,...])
+    def _zeroth_coefficients(self, other):
+        """ zeroth coefficients of self and other, broadcast like any other
+        binary operation (the direction axis is never mixed with array axes)"""
+        if isinstance(other, self.__class__):
+            x_data, y_data = UTPM._broadcast_arrays(self.data, other.data)
         else:
-            return numpy.all(self.data[0,...] < other)
+            other = numpy.asarray(other)
+            x_data, y_data = UTPM._broadcast_arrays(self.data, other.reshape((1,1) + other.shape))
+        return x_data[0], y_data[0]
+
+    def __lt__(self, other):
+        x0, y0 = self._zeroth_coefficients(other)
+        return numpy.all(x0 < y0)
 
     def __le__(self, other):
-        if isinstance(other,self.__class__):
-            return numpy.all(self.data[0,...] <= other.data[0,...])
-        else:
-            return numpy.all(self.data[0,...] <= other)
+        x0, y0 = self._zeroth_coefficients(other)
+        return numpy.all(x0 <= y0)
 
     def __gt__(self, other):
-        if isinstance(other,self.__class__):
-            return numpy.all(self.data[0,...] > other.data[0,...])
-        else:
-            return numpy.all(self.data[0,...] > other)
+        x0, y0 = self._zeroth_coefficients(other)
+        return numpy.all(x0 > y0)
 
     def __ge__(self, other):
-        if isinstance(other,self.__class__):
-            return numpy.all(self.data[0,...] >= other.data[0,...])
-        else:
-            return numpy.all(self.data[0,...] >= other)
+        x0, y0 = self._zeroth_coefficients(other)
+        return numpy.all(x0 >= y0)
 
     def __eq__(self, other):
-        if isinstance(other,self.__class__):
-            return numpy.all(self.data[0,...] == other.data[0,...])
-        else:
-            return numpy.all(self.data[0,...] == other)
+        x0, y0 = self._zeroth_coefficients(other)
+        return numpy.all(x0 == y0)
 
     @classmethod
     def neg(cls, x, out = None):
